@@ -204,6 +204,7 @@ class Ctx(object):
         t0 = time.time()
         state = {"fail": None}
         phases = [Phase.generate] + ([Phase.shrink] if shrink else [])
+        recent = collections.deque(maxlen=40)
 
         @hypothesis.seed(derive_seed(self.seed, self.shard, self.prop, name))
         @settings(max_examples=examples, database=None, deadline=None, derandomize=False,
@@ -216,15 +217,29 @@ class Ctx(object):
             try:
                 info = fn(case)
             except Violation as v:
+                if state["fail"] is None or not state.get("history"):
+                    state["history"] = list(recent)
                 state["fail"] = (case, v)
                 raise
+            finally:
+                recent.append(case)
             self._account(sub, case, info, nontrivial(case) if nontrivial else True)
 
+        flaky = tuple(c for c in (getattr(hypothesis.errors, "Flaky", None), getattr(hypothesis.errors, "FlakyFailure", None)) if c)
         try:
             test()
         except Violation:
             case, v = state["fail"]
             self._violation(name, case, v)
+        except flaky as exc:
+            if state["fail"] is None:
+                raise HarnessError("sub-check %s: %s: %s" % (name, type(exc).__name__, exc))
+            # the same case passed and failed in one process: the verdict depends on what ran before it, i.e. state leaks
+            # between calls / objects inside the library.  Report it with the cases that preceded the first failure.
+            case, v = state["fail"]
+            seq = {"__sequence__": state.get("history", [])[-40:] + [case]}
+            self._violation(name, seq, Violation("order-dependent/" + v.bucket, "the case fails only after earlier cases ran in the same process (state "
+                                                 "shared between calls or objects): " + v.message))
         except hypothesis.errors.HypothesisException as exc:
             raise HarnessError("sub-check %s: %s: %s" % (name, type(exc).__name__, exc))
         sub.wall += time.time() - t0
@@ -431,7 +446,19 @@ def replay(mod, path):
         sys.stderr.write("no replay function for sub-check %s\n" % rec["subcheck"])
         return 2
     try:
-        fn(rec["case"])
+        case = rec["case"]
+        if isinstance(case, dict) and "__sequence__" in case:
+            # order-dependent finding: run the recorded cases one after the other in this process
+            last = None
+            for c in case["__sequence__"]:
+                try:
+                    fn(c)
+                except Violation as v:
+                    last = v
+            if last is not None:
+                raise last
+        else:
+            fn(case)
     except Violation as v:
         print("VIOLATION property=%s replay=%s" % (mod.PROPERTY, os.path.abspath(path)))
         print("  bucket=%s\n  %s" % (v.bucket, v.message[:400]))
